@@ -1051,8 +1051,11 @@ theorem loop_sim : ∀ (lines : List (List Nat)) (t : RdState), (∀ l ∈ lines
 theorem finish_sim (t : RdState) : ResRel (faFinish (toFa t)) (rdFinish t) := by
   unfold faFinish rdFinish
   simp only [toFa]
-  by_cases hb : t.buf.length > 0
-  · simp only [hb, if_true]
+  by_cases hb : t.buf.length > 0 ∨ t.counter > 0
+  · have hb' : (decide (t.buf.length > 0) || decide (t.counter > 0)) = true := by
+      simp only [Bool.or_eq_true, decide_eq_true_eq]
+      exact hb
+    simp only [hb, hb', if_true]
     by_cases hw : t.counter > 0 ∧ t.buf.length ≠ t.width
     · have hw' : (decide (t.counter > 0) && t.buf.length != t.width) = true := by
         simp only [Bool.and_eq_true, decide_eq_true_eq, bne_iff_ne, ne_eq]
@@ -1067,10 +1070,11 @@ theorem finish_sim (t : RdState) : ResRel (faFinish (toFa t)) (rdFinish t) := by
         · exact Or.inl h0
       simp only [hw, hw', if_false, Bool.false_eq_true, ResRel]
       simp [faRec, conv, mkRec]
-  · simp only [hb, if_false]
-    by_cases h0 : t.counter = 0
-    · simp [h0, ResRel, ErrRel, errMap]
-    · simp [h0, ResRel]
+  · have hb' : (decide (t.buf.length > 0) || decide (t.counter > 0)) = false := by
+      simp only [Bool.or_eq_false_iff, decide_eq_false_iff_not]
+      exact ⟨fun h => hb (Or.inl h), fun h => hb (Or.inr h)⟩
+    simp only [hb, hb', if_false, Bool.false_eq_true]
+    simp [ResRel, ErrRel, errMap]
 
 /-- the GFF reader's FASTA loop on a list of lines -/
 def gffFastaOnLines (lines : List (List Nat)) : Except Err (List FaRecord) :=
@@ -1116,6 +1120,15 @@ def errOf {ε α : Type} : Except ε α → Option ε
 example : errOf (gffFastaOnLines [[62, 97], [65, 67], [62, 98], [65], [62]]) = some .faDiffLen ∧
     (errOf (modelFastaOnLines [[62, 97], [65, 67], [62, 98], [65], [62]])).map (·.2) = some .badFormat := by
   refine ⟨by decide +kernel, by decide +kernel⟩
+
+/-- the repaired loop end on both sides: ">a / ACGT / >b" (a last header without a sequence) is refused with
+"different length sequences" by the FASTA-section reader of the GFF model and by the FASTA model; two headers and
+nothing else are two records of width 0; one single header is "no record" -/
+example : errOf (gffFastaOnLines [[62, 97], [65, 67, 71, 84], [62, 98]]) = some .faDiffLen ∧
+    (errOf (modelFastaOnLines [[62, 97], [65, 67, 71, 84], [62, 98]])).map (·.2) = some .diffLen ∧
+    (gffFastaOnLines [[62, 97], [62, 98]]).toOption = some [⟨[97], [97], [], 0⟩, ⟨[98], [98], [], 1⟩] ∧
+    errOf (gffFastaOnLines [[62, 97]]) = some .faEmpty := by
+  refine ⟨by decide +kernel, by decide +kernel, by decide +kernel, by decide +kernel⟩
 
 /-- the hypothesis on headers is needed: ">" followed by U+00A0 has an ID for the model (ASCII white space only) and
 none for strings.Fields -/
